@@ -137,6 +137,15 @@ MUTANTS = {
     "c11-neg-n": ("pulsarbat/readers/_base.py", "        if (n := operator.index(n)) < 0:\n            raise ValueError", "        if (n := abs(operator.index(n))) < 0:\n            raise ValueError", ["C11"]),
     "c11-real-len": ("pulsarbat/readers/_baseband_readers.py", "                _length = fh.shape[0] // 2\n", "                _length = (fh.shape[0] + 1) // 2\n", ["C11"]),
     "c11-dask-eager": ("pulsarbat/readers/_base.py", "            z = da.from_delayed(delayed_read(offset, n, **kwargs),", "            z = da.from_delayed(dask.delayed(self._read_array(offset, n, **kwargs)),", ["C11"]),
+    "c09-compute-noop": ("pulsarbat/core.py", "            x = self.data.compute(**kwargs)\n", "            x = self.data\n", ["C09"]),
+    "c09-persist-compute": ("pulsarbat/core.py", "            x = self.data.persist(**kwargs)\n", "            x = self.data.compute(**kwargs)\n", ["C09"]),
+    "c09-todask-self": ("pulsarbat/core.py", "        return type(self).like(self, dask.array.asanyarray(self.data))", "        return self", ["C09"]),
+    "c09-fft-eager": ("pulsarbat/fft.py", "        return wrapped_func(*args, **kwargs)", "        return da.from_array(_fft_func(args[0].compute(), *args[1:], **kwargs))", ["C09"]),
+    "c09-map-blocks-eager": ("pulsarbat/transforms/transforms.py", "            z = da.map_blocks(func, x.data, **dask_kwargs, **kwargs)", "            z = da.from_array(func(x.data.compute(), **kwargs))", ["C09"]),
+    "c09-incoh-eager": ("pulsarbat/transforms/dedispersion.py", "    x = np.stack([z.data[j : j + N, i] for i, j in enumerate(delays)], axis=1)", "    x = np.stack([np.asarray(z.data[j : j + N, i]) for i, j in enumerate(delays)], axis=1)", ["C09"]),
+    "c09-ufunc-eager": ("pulsarbat/core.py", "        in_arr = tuple((i.data if isinstance(i, Signal) else i) for i in inputs)", "        in_arr = tuple((np.asarray(i.data) if isinstance(i, Signal) else i) for i in inputs)", ["C09"]),
+    "c09-freqshift-arange-chunks": ("pulsarbat/transforms/transforms.py", "        n = da.arange(len(z), chunks=(-1,))", "        n = da.arange(len(z), chunks=(max(len(z) // 2, 1),))", ["C09"]),
+    "c09-rechunk-noop": ("pulsarbat/core.py", "        x = dask.array.asanyarray(self.data)\n        return type(self).like(self, x.rechunk(chunks, **kwargs))", "        x = self.data\n        return type(self).like(self, x.rechunk(chunks, **kwargs) if hasattr(x, 'rechunk') else x)", ["C09"]),
     "c08-phasepol-domain": ("pulsarbat/pulsar/predictor.py", '        polynomial = self["poly"][index](Polynomial([dt, 1]))\n        a = int(polynomial(0) // 1)\n\n        return polynomial - a, pb.Phase(rphase + a)', '        polynomial = self["poly"][index].copy()\n        polynomial.domain -= dt\n        a = int(polynomial(0) // 1)\n\n        return (polynomial - a).convert(), pb.Phase(rphase + a)', ["C08"]),
     "c08-domain": ("pulsarbat/pulsar/predictor.py", "poly=Polynomial(coeffs, domain=[-60, +60]).convert(),", "poly=Polynomial(coeffs, domain=[-30, +30]).convert(),", ["C08"]),
     "c08-f0-minutes": ("pulsarbat/pulsar/predictor.py", "coeffs[1] += float(f0) * 60", "coeffs[1] += float(f0)", ["C08"]),
